@@ -431,7 +431,7 @@ def gen_level(draw, opts, ctx, depth, is_message):
         lvl["block_length"] = min_bl + draw(st.sampled_from([0, 0, 1, 3, 16]))
     lvl["groups"] = []
     lvl["data"] = []
-    ngroups = draw(st.sampled_from([0, 1, 1, 2] if depth == 0 else [0, 0, 1, 2])) if depth < 3 and ctx["dims"] else 0
+    ngroups = draw(st.sampled_from([0, 1, 1, 2, 2, 3] if depth == 0 else [0, 0, 1, 2, 3] if depth == 1 else [0, 0, 1])) if depth < 3 and ctx["dims"] else 0
     for _ in range(ngroups):
         g = {"name": _names(draw, used), "id": draw(st.sampled_from([1, 2, 10, 65535]))}
         g.update(gen_level(draw, opts, ctx, depth + 1, False))
